@@ -433,7 +433,10 @@ impl<'a> Gen<'a> {
                     }
                     // sometimes the graph variable of the GRAPH ?g blocks: it then arrives bound from
                     // outside, also to names that are no visible graph
-                    if self.r.chance(1, 8) {
+                    // (top-level group only: inside a GRAPH ?g block a second binder of ?g meets the
+                    // recorded finding about the block's own variable in ways the attribution
+                    // cannot reproduce exactly)
+                    if top && depth == 0 && self.r.chance(1, 5) {
                         vars[0] = "g".to_string();
                         self.features.insert("graph_variable_bound_by_values".into());
                     }
